@@ -1,3 +1,4 @@
+mod keyupdate;
 mod ranges;
 mod reasm;
 mod util;
@@ -10,6 +11,7 @@ fn main() {
         "reasm-replay" => reasm::replay(rest),
         "reasm-record" => reasm::record(rest),
         "ranges-replay" => ranges::replay(rest),
+        "keyupdate-replay" => keyupdate::replay(rest),
         _ => {
             eprintln!("unknown command {cmd}");
             std::process::exit(2);
